@@ -6,12 +6,16 @@ exception Bad of string
 
 let parse_req (t : string) : req =
   (* an optional 6th character selects the text of the scripted errors: not a model input *)
-  let t = if String.length t = 6 && t.[5] >= '0' && t.[5] <= '4' then String.sub t 0 5 else t in
+  (* likewise an optional body letter (l h r j): the request is a POST with a body *)
+  let t = if String.length t > 5
+             && (let ok = ref true in
+                 String.iteri (fun k c -> if k >= 5 && not (String.contains "01234lhrj" c) then ok := false) t; !ok)
+          then String.sub t 0 5 else t in
   if String.length t <> 5 then raise (Bad t);
   let has set c = String.contains set c in
   let q = t.[1] and s = t.[3] in
   if not (has "PESHABCD" q) || not (has "PEHA" s) then raise (Bad t);
-  { r_mode = (match t.[0] with 'g' -> Plain | 'b' -> ConnectBlind | 'm' -> ConnectMitm | _ -> raise (Bad t));
+  { r_mode = (match t.[0] with 'g' -> Plain | 'b' -> ConnectBlind | 'd' -> ConnectDown | 'm' -> ConnectMitm | _ -> raise (Bad t));
     q_hij = has "HACD" q; q_err = has "EABD" q; q_skip = has "SBCD" q;
     (* R = answered through a real transport by a real origin; E T U X = kinds of round trip error
        (io.EOF, timeout, unexpected EOF, deadline exceeded); Q S = real origin closes / never answers *)
@@ -37,7 +41,7 @@ let parse_ev (t : string) : event =
   | ["Q"; r; c; s; l] -> ReqMod (nat r, nat c, nat s, nlist l)
   | ["U"; r; sm; w; m] -> Upstream (nat r, bool01 sm, nat w, nat m)
   | ["D"; r] -> Dial (nat r)
-  | ["S"; r; sm; c; s; st; w; l] -> ResMod (nat r, bool01 sm, nat c, nat s, nat st, nat w, nlist l)
+  | ["S"; r; sm; c; s; st; w; qw; l] -> ResMod (nat r, bool01 sm, nat c, nat s, nat st, nat w, nat qw, nlist l)
   | ["W"; r; st; w; cl; m] -> Write (nat r, nat st, nat w, bool01 cl, nat m)
   | ["T"; r] -> Tunnel (nat r)
   | ["H"; r] -> HijackRet (nat r)
@@ -56,7 +60,7 @@ let pr_ev = function
   | ReqMod (r, c, s, l) -> String.concat "." ["Q"; i r; i c; i s; pl l]
   | Upstream (r, sm, w, m) -> String.concat "." ["U"; i r; b sm; i w; i m]
   | Dial r -> "D." ^ i r
-  | ResMod (r, sm, c, s, st, w, l) -> String.concat "." ["S"; i r; b sm; i c; i s; i st; i w; pl l]
+  | ResMod (r, sm, c, s, st, w, qw, l) -> String.concat "." ["S"; i r; b sm; i c; i s; i st; i w; i qw; pl l]
   | Write (r, st, w, cl, m) -> String.concat "." ["W"; i r; i st; i w; b cl; i m]
   | Tunnel r -> "T." ^ i r
   | HijackRet r -> "H." ^ i r
@@ -73,7 +77,7 @@ let clause_name = function
   | CNoContext -> "no_context_after_exchange"
   | CError -> "error_is_warning_and_continues"
   | CSkip -> "skip_means_no_upstream_and_200_through_resmod"
-  | CScope -> "modifier_called_only_for_requests_read"
+  | CScope -> "modifiers_see_exactly_the_requests_sent"
   | CRelay -> "upstream_contacted_and_status_is_origins"
 
 let judge _name ins outs =
